@@ -119,6 +119,34 @@ fn context_roundtrip_for(log_len: u32) {
     assert!(!rd.has_more_bytes());
 }
 
+/// The field elements that seed the public coin bind the proof context: two contexts that differ only in the trace
+/// metadata - one symbolic byte versus two symbolic bytes - give different element lists (the metadata bytes are
+/// zero-padded into elements, so without the length [a] and [a, 0] would be absorbed identically). Instantiated with
+/// the 128-bit field, whose conversions are multiplier-free; shapes are concrete, bytes symbolic.
+#[kani::proof]
+#[kani::unwind(20)]
+#[kani::stub(alloc::fmt::format, fmt_stub)]
+fn air_context_to_elements_binding_bounded() {
+    use math::{fields::f128::BaseElement, ToElements};
+    let a: u8 = kani::any();
+    let b: [u8; 2] = kani::any();
+    let o = ProofOptions::new(1, 2, 0, crate::FieldExtension::None, 2, 0);
+    let c1 = Context::new::<BaseElement>(TraceInfo::new_multi_segment(1, 0, 0, 8, vec![a]), o.clone());
+    let c2 = Context::new::<BaseElement>(TraceInfo::new_multi_segment(1, 0, 0, 8, vec![b[0], b[1]]), o);
+    let e1: Vec<BaseElement> = c1.to_elements();
+    let e2: Vec<BaseElement> = c2.to_elements();
+    assert!(e1.len() == e2.len());
+    let mut differ = false;
+    let mut i = 0;
+    while i < e1.len() {
+        if e1[i] != e2[i] {
+            differ = true;
+        }
+        i += 1;
+    }
+    assert!(differ);
+}
+
 #[kani::proof]
 #[kani::unwind(10)]
 #[kani::stub(alloc::fmt::format, fmt_stub)]
